@@ -6,6 +6,7 @@ use crate::Tier;
 pub mod asmprops;
 pub mod c03;
 pub mod c12conv;
+pub mod cli;
 pub mod lineprops;
 pub mod msgjudge;
 pub mod msgprops;
@@ -13,6 +14,9 @@ pub mod msgspaces;
 
 pub fn spaces(prop: &str, tier: Tier) -> Vec<Space> {
     match prop {
+        "C01" => c01(tier),
+        "C18" => c18(tier),
+        "C20" => cli::c20(tier),
         "C02" => lineprops::c02(tier),
         "C07" => lineprops::c07(tier),
         "C08" => lineprops::c08(tier),
@@ -48,4 +52,56 @@ pub fn explore(prop: &str, tier: Tier) -> Option<J> {
 
 pub fn replay_history(_args: &[String]) -> i32 {
     2
+}
+
+/// C01 — totality: every space family, all three builds; only panics / hangs are reported.
+fn c01(tier: Tier) -> Vec<Space> {
+    use lineprops::*;
+    let p = "C01";
+    let mut v = vec![
+        line_seeds(p),
+        line_short(p, if tier == Tier::Quick { 5 } else { 7 }),
+        line_mut1(p),
+        line_field_edit(p),
+        line_grammar(p, tier == Tier::Thorough),
+        line_cksum(p),
+        line_typechar(p),
+        asmprops::chain(p),
+        asmprops::hist_space(p, if tier == Tier::Quick { 4 } else { 5 }),
+        asmprops::split2(p),
+    ];
+    v.extend(c03::spaces_for(p, tier));
+    v.extend(msgprops::c01_msg(tier));
+    if tier == Tier::Thorough {
+        v.push(line_mut2(p, 10));
+        v.push(line_addr(p, false));
+    }
+    v
+}
+
+/// C18 — build equivalence: the same spaces in digest mode (per-chunk digests are compared by the
+/// driver across the three builds), plus the capacity rule.
+fn c18(tier: Tier) -> Vec<Space> {
+    use lineprops::*;
+    let p = "C18";
+    let mut v = vec![
+        line_seeds(p),
+        line_mut1(p),
+        line_field_edit(p),
+        line_grammar(p, tier == Tier::Thorough),
+        line_cksum(p),
+        line_typechar(p),
+        asmprops::chain(p),
+        asmprops::hist_space(p, if tier == Tier::Quick { 4 } else { 5 }),
+        asmprops::split2(p),
+        asmprops::split_compositions(p),
+    ];
+    v.extend(c03::spaces_for(p, tier));
+    v.extend(msgprops::c18_msg(tier));
+    if tier == Tier::Thorough {
+        v.push(line_short(p, 6));
+        v.push(line_mut2(p, 10));
+        v.push(asmprops::split3(p, 34));
+    }
+    v
 }
